@@ -183,7 +183,7 @@ func c09RaceRun(c *Ctx) {
 	}
 	plans := []plan{{"two-clients", 2}, {"tcp-backend-churn", 1}}
 	if c.Thorough() {
-		plans = []plan{{"two-clients", 3}, {"three-clients", 2}, {"tcp-backend-churn", 2}}
+		plans = []plan{{"two-clients", 3}, {"three-clients", 3}, {"tcp-backend-churn", 2}}
 	}
 	if v := os_Getenv("VERIF_C09_BOUND"); v != "" {
 		var b int
